@@ -220,8 +220,8 @@ PROPS["C14"] = {
     "text": "Four RPDOs and four TPDOs; the pair number n under reconfiguration is 0, 1 or 3 (configurations: n x {PRE-OPERATIONAL, started OPERATIONAL}, plus pair 1 with both PDOs synchronous from the start), the three other pairs are valid bystanders on their own identifiers and objects. 94 events: per PDO the COB-ID written with {valid, invalid, other id valid, other id invalid, extended, RTR-allowed/extended}; transmission type {1,254,255}; mapping count {0,1,2,8,9}; mapping entries 1, 2 and 8 written with {mappable 8/16/32-bit object, non-mappable, read-only, write-only, non-existing object, 64-bit length, length != object width}; NMT start / pre-op. Per step: accept/refuse verdict, the abort codes the property set fixes (0609 0030h, 0604 0041h, 0604 0042h), and the complete stored configuration (a refused write changes nothing). At every activation (entering OPERATIONAL, re-validation while OPERATIONAL) the PDO is probed: the TPDO frame has DLC = sum of the mapped bytes <= 8 and carries the mapped values, an RPDO frame writes exactly the mapped objects; public ObjNum/Size[] stay within 8; then, on a copy of the state, 8 ticks pass - a TPDO activated with a synchronous type must stay silent without SYNC, one activated as event-driven (its event time is 2 ms) must send, and a SYNC must produce exactly one frame of a type-1 TPDO (also after every COB-ID write of the RPDO with the same number: they share the SYNC table). After an invalidation while OPERATIONAL the PDO must neither transmit on a trigger nor take a frame on its old identifier, and after every COB-ID write and every entry into OPERATIONAL each bystander TPDO must still send exactly its configured frame and each bystander RPDO write exactly its object (index arithmetic 14xxh/16xxh/18xxh/1Axxh + n versus the runtime slot n). Mapping procedure (c14map): for every ordered composition of 8-, 16-, 24- and 32-bit entries totalling <= 8 bytes (892 per direction) the client runs the CiA 301 procedure with expedited writes - invalidate, count 0, entries, count n, validate - in PRE-OPERATIONAL followed by NMT start and while OPERATIONAL; every write must be accepted and read back as written, then the TPDO frame must be the little-endian concatenation of the mapped values resp. an RPDO frame must put exactly its fields into the mapped objects (two value patterns with non-zero top bytes); every composition is also extended by one entry beyond 8 bytes: the count write must be refused with 0604 0042h, the count stays 0.",
     "note": "verdicts the statement leaves open are accepted either way: invalidating and changing the id in one write, rewriting the identical valid COB-ID, a count that covers an unset (zero) entry, mapping lengths that differ from the object width; the abort code is free for 'PDO is valid' / 'count is not zero' refusals; depth-bounded",
     "jobs": {
-        "quick": [J("c14", c, depth=6, deadline=100) for c in range(8)] + [J("c14map", 0), J("c14map", 1)],
-        "thorough": [J("c14", c, depth=8, deadline=1200, max_states=20000000) for c in range(8)] + [J("c14map", 0), J("c14map", 1)],
+        "quick": [J("c14", c, depth=6, deadline=100) for c in range(10)] + [J("c14map", 0), J("c14map", 1)],
+        "thorough": [J("c14", c, depth=8, deadline=1200, max_states=20000000) for c in range(10)] + [J("c14map", 0), J("c14map", 1)],
     },
 }
 
